@@ -350,6 +350,23 @@ def rule_yield1(ctx: Ctx) -> RuleResult:
         res.ok("Getter.get_attr", "get_data(sid).get(attribute)")
     else:
         res.violation([gt.qualname, "delegation"], "Getter.get_attr is not get_data(sid).get(attribute)", gt.relpath, gt.node.lineno)
+    # the iteration over the Finder lives in GetByFinder alone: no Getter built on a Finder replaces it with a path of its own
+    base = ctx.p.cls("spil.sid.read.getters.getter_finder.GetByFinder")
+    n_sub = 0
+    for k in ctx.p.subclasses(base):
+        if k.module.kind not in ("library", "config") or k.module.name == "spil.sid.read.finders.find_cache":
+            continue
+        n_sub += 1
+        for nm in ("get", "do_get", "get_one"):
+            if nm in k.methods:
+                m = k.methods[nm]
+                outs = [n for n in own_nodes(m.node) if isinstance(n, (ast.Yield, ast.YieldFrom)) or (isinstance(n, ast.Return) and n.value is not None)]
+                if len(outs) == 1 and not isinstance(outs[0], ast.Yield) and norm(outs[0].value).startswith(f"super().{nm}(") and not any(
+                        isinstance(n, ast.Return) and n.value is None for n in own_nodes(m.node)) and not facts_at(ctx, m, outs[0]):
+                    continue  # a wrapper around the inherited iteration
+                res.violation([k.qualname, nm, "override"], f"{k.name} overrides {nm}: its records are no longer one per Sid of its Finder, in the Finder's order",
+                              k.methods[nm].relpath, k.methods[nm].node.lineno)
+    res.ok("GetByFinder subclasses", f"{n_sub} subclass(es), none overrides get / do_get / get_one", nontrivial=False)
     return res
 
 
@@ -579,4 +596,95 @@ def rule_tolerant(ctx: Ctx) -> RuleResult:
                           f"handler in get_data catches it: one damaged sidecar makes reads and whole searches fail", f.relpath, r.lineno)
         else:
             res.ok(f"get_data: `{norm(r)[:40]}`", "inside try with handlers for OSError and decoding errors; none re-raises")
+    return res
+
+
+# ------------------------------------------------------------------------------------------------ first record / dispatch
+def _when_truthy(e: ast.AST, name: str) -> ast.AST:
+    """what `e` evaluates to when the variable ``name`` is truthy (only `or` / `and` chains led by the name are simplified)"""
+    if isinstance(e, ast.BoolOp) and isinstance(e.values[0], ast.Name) and e.values[0].id == name:
+        if isinstance(e.op, ast.Or):
+            return e.values[0]
+        rest = e.values[1:]
+        return rest[0] if len(rest) == 1 else ast.BoolOp(op=ast.And(), values=rest)
+    return e
+
+
+def rule_firstrec(ctx: Ctx) -> RuleResult:
+    """C16: get_one is the first record of get(); GetFromAll.get_data / get_attr hand the Sid to the configured Getter exactly when
+    there is one (and answer empty, without failing, when there is none)"""
+    res = RuleResult("R-FIRSTREC")
+    p = ctx.p
+    g = p.function("spil.sid.read.getter.Getter.get_one")
+    sp = g.params[1]
+    firsts = []
+    for n in own_nodes(g.node):
+        if isinstance(n, ast.Call) and dotted(n.func) in ("first", "next") and n.args:
+            inner = n.args[0]
+            if isinstance(inner, ast.Call) and dotted(inner.func) == "iter" and inner.args:
+                inner = inner.args[0]
+            if isinstance(inner, ast.Call) and norm(inner.func) == "self.get" and (
+                    (inner.args and norm(inner.args[0]) == sp) or any(k.arg == "search_sid" and norm(k.value) == sp for k in inner.keywords)):
+                firsts.append(n)
+    if len(firsts) != 1:
+        res.violation([g.qualname, "first"], "Getter.get_one is not the first record of self.get(search_sid, ...)", g.relpath, g.node.lineno)
+    else:
+        call = firsts[0]
+        flow = flow_of(g.node)
+        bound = [d.var for d in flow.all_defs if d.kind == "assign" and d.value is call]
+        name = bound[0] if bound else None
+        if name and sum(1 for d in flow.all_defs if d.var == name) != 1:
+            res.violation([g.qualname, "rebinding"], f"Getter.get_one: `{name}` (the first record) is bound again before it is returned", g.relpath, g.node.lineno)
+        bad = None
+        n_ret = 0
+        for r in _rets(g):
+            if r.value is None:
+                bad = r
+                continue
+            n_ret += 1
+            if name and (name, False) in facts_at(ctx, g, r):
+                continue  # nothing was found
+            v = _when_truthy(r.value, name) if name else r.value
+            if not ((name and isinstance(v, ast.Name) and v.id == name) or v is call or (
+                    isinstance(v, ast.BoolOp) and isinstance(v.op, ast.Or) and v.values[0] is call)):
+                bad = r
+        if bad is not None or not n_ret:
+            res.violation([g.qualname, "first record"], f"Getter.get_one: `{norm(bad) if bad is not None else 'no return'}` is not the first record of get() "
+                                                      f"when there is one", g.relpath, (bad or g.node).lineno)
+        else:
+            res.ok("Getter.get_one", "returns first(self.get(search_sid, ...)) whenever a record was found")
+    for q, meth in (("spil.sid.read.getters.getter_all.GetFromAll.get_data", "get_data"),
+                    ("spil.sid.read.getters.getter_all.GetFromAll.get_attr", "get_attr")):
+        f = p.function(q)
+        sidp = f.params[1]
+        flow = flow_of(f.node)
+        src = [d for d in flow.all_defs if d.kind == "assign" and isinstance(d.value, ast.Call) and dotted(d.value.func).split(".")[-1] == "get_getter"]
+        if len(src) != 1 or not (src[0].value.args and norm(src[0].value.args[0]) == sidp):
+            res.violation([q, "getter lookup"], f"GetFromAll.{meth}: the Getter is not looked up once with get_getter({sidp}, ...)", f.relpath, f.node.lineno)
+            continue
+        name = src[0].var
+        if meth == "get_attr":
+            ap = f.params[2]
+            if not any(norm(a) == ap for a in list(src[0].value.args[1:]) + [k.value for k in src[0].value.keywords]):
+                res.violation([q, "attribute"], f"GetFromAll.get_attr: the Getter is looked up without the attribute `{ap}`", f.relpath, src[0].value.lineno)
+        deleg, other_bad = 0, None
+        for r in _rets(f):
+            if r.value is None:
+                continue
+            fs = facts_at(ctx, f, r)
+            v = r.value
+            is_deleg = isinstance(v, ast.Call) and isinstance(v.func, ast.Attribute) and norm(v.func.value) == name and v.func.attr == meth \
+                and ((v.args and norm(v.args[0]) == sidp) or any(norm(k.value) == sidp for k in v.keywords))
+            if is_deleg:
+                if (name, True) in fs:
+                    deleg += 1
+                else:
+                    other_bad = (r, f"`{norm(r)}` is not under 'a Getter is configured' (`{name}` truthy)")
+            elif (name, False) not in fs:
+                other_bad = (r, f"`{norm(r)}` answers without the configured Getter although there may be one")
+        if other_bad is not None or not deleg:
+            r, why = other_bad if other_bad is not None else (f.node, f"no `{name}.{meth}({sidp}, ...)` answer")
+            res.violation([q, "dispatch"], f"GetFromAll.{meth}: {why}", f.relpath, r.lineno)
+        else:
+            res.ok(q, f"`{name}.{meth}({sidp}, ...)` exactly when get_getter found a Getter, an empty answer otherwise")
     return res
